@@ -1,9 +1,12 @@
 package drivers
 
 import (
+	"bytes"
 	"encoding/json"
 	"io"
 	"os"
+	"runtime"
+	"runtime/debug"
 	"sync"
 	"time"
 
@@ -37,6 +40,7 @@ type isoConn struct {
 	Msgs     int      `json:"msgs"`
 	Fault    isoFault `json:"fault"`
 	Answered []int    `json:"answered"`
+	Intact   bool     `json:"intact"` // every answer echoes the payload of this connection's own request
 	Closed   bool     `json:"closed"`
 }
 type isoLine struct {
@@ -59,7 +63,11 @@ func runIsolation(id int, c *isoCase) isoLine {
 		if m.Header.EndToEndID == 0xDEADDEAD {
 			panic("scripted handler panic")
 		}
-		m.Answer(2001).WriteTo(dc)
+		a := m.Answer(2001)
+		for _, av := range m.AVP { // echo the request's AVPs
+			a.AddAVP(av)
+		}
+		a.WriteTo(dc)
 	}
 	var handler diam.Handler
 	var reps <-chan *diam.ErrorReport
@@ -112,6 +120,13 @@ func runIsolation(id int, c *isoCase) isoLine {
 			mc.WaitReaderBlocked(2 * time.Second)
 		}
 	}
+	// a request of connection k, message i: a 200-byte Class AVP filled with a byte that names (k, i)
+	pat := func(k, i int) byte { return byte(16*(k+1) + i) }
+	mkReq := func(k, i int) []byte {
+		body := rawAVP(25, 0x40, 0, 8+200, bytes.Repeat([]byte{pat(k, i)}, 200), true)
+		h := diam.Header{Version: 1, MessageLength: uint32(20 + len(body)), CommandFlags: 0x80, CommandCode: 272, ApplicationID: 4, HopByHopID: uint32(i), EndToEndID: uint32(i)}
+		return append(h.Serialize(), body...)
+	}
 	ceaLen := make([]int, c.Conns)
 	for k := range conns {
 		ceaLen[k] = len(conns[k].Out())
@@ -119,12 +134,13 @@ func runIsolation(id int, c *isoCase) isoLine {
 	probeOff := len(probe.Out())
 	dead := make([]bool, c.Conns)
 	for i := 1; i <= c.Msgs; i++ {
+		second := make([][]byte, c.Conns)
 		for k := 0; k < c.Conns; k++ {
 			if dead[k] {
 				continue
 			}
 			f := c.Faults[k]
-			req := appMsg(272, 4, true, uint32(i))
+			req := mkReq(k, i)
 			if f.Kind != "none" && f.Pos == i {
 				dead[k] = true
 				switch f.Kind {
@@ -133,6 +149,10 @@ func runIsolation(id int, c *isoCase) isoLine {
 					conns[k].Feed(req)
 				case "bad":
 					conns[k].Feed(cnBad())
+				case "badbody": // a valid header whose body cannot be decoded (AVP length beyond the body)
+					bb := mkReq(k, i)
+					bb[20+5], bb[20+6], bb[20+7] = 0x00, 0xff, 0xff
+					conns[k].Feed(bb)
 				case "eof":
 					conns[k].FeedErr(io.EOF)
 				case "eofmid":
@@ -141,8 +161,37 @@ func runIsolation(id int, c *isoCase) isoLine {
 				}
 				continue
 			}
-			conns[k].Feed(req)
+			// every request arrives in two fragments; the second halves are delivered after
+			// the first halves of all connections, so the reads of different connections overlap
+			conns[k].Feed(req[:60])
+			second[k] = req[60:]
 		}
+		for k := 0; k < c.Conns; k++ {
+			if second[k] != nil {
+				conns[k].WaitReaderBlocked(2 * time.Second)
+			}
+		}
+		for k := c.Conns - 1; k >= 0; k-- {
+			if second[k] != nil {
+				conns[k].Feed(second[k])
+			}
+		}
+	}
+	// the application registers another handler at run time (registration concurrent with dispatch)
+	lateDone := make(chan struct{})
+	go func() {
+		switch h := handler.(type) {
+		case *diam.ServeMux:
+			h.HandleFunc("LATE", func(diam.Conn, *diam.Message) {})
+		case *sm.StateMachine:
+			h.HandleFunc("LATE", func(diam.Conn, *diam.Message) {})
+		}
+		close(lateDone)
+	}()
+	select {
+	case <-lateDone:
+	case <-time.After(300 * time.Millisecond):
+		l.Note += " run-time Handle call blocked"
 	}
 	probe.Feed(appMsg(272, 4, true, 1))
 	gone := func() bool {
@@ -181,17 +230,21 @@ func runIsolation(id int, c *isoCase) isoLine {
 	}
 	time.Sleep(5 * time.Millisecond)
 	for k := 0; k < c.Conns; k++ {
-		ic := isoConn{Msgs: c.Msgs, Fault: c.Faults[k], Answered: []int{}, Closed: conns[k].Closed()}
+		ic := isoConn{Msgs: c.Msgs, Fault: c.Faults[k], Answered: []int{}, Intact: true, Closed: conns[k].Closed()}
 		msgs, _ := splitMsgs(conns[k].Out()[ceaLen[k]:])
 		for _, m := range msgs {
 			if m.Cmd == 272 && m.Flags&0x80 == 0 {
 				ic.Answered = append(ic.Answered, int(m.HbH))
+				echoed := m.find(25)
+				if len(echoed) != 1 || !bytes.Equal(echoed[0].Payload, bytes.Repeat([]byte{pat(k, int(m.HbH))}, 200)) {
+					ic.Intact = false
+				}
 			}
 		}
 		l.Conns = append(l.Conns, ic)
 	}
 	// the probe connection counts as one more healthy connection
-	pc := isoConn{Msgs: 1, Fault: isoFault{Kind: "none"}, Answered: []int{}, Closed: probe.Closed()}
+	pc := isoConn{Msgs: 1, Fault: isoFault{Kind: "none"}, Answered: []int{}, Intact: true, Closed: probe.Closed()}
 	if msgs, _ := splitMsgs(probe.Out()[probeOff:]); len(msgs) >= 1 {
 		pc.Answered = append(pc.Answered, int(msgs[0].HbH))
 	}
@@ -224,6 +277,11 @@ func Isolation(a Args) error {
 		return err
 	}
 	defer out.Close()
+	if a.Extra["p1"] == "1" {
+		// one P and no collection: a buffer put into a sync.Pool twice is handed to two readers
+		runtime.GOMAXPROCS(1)
+		debug.SetGCPercent(-1)
+	}
 	id := 0
 	return ReadLines(a.Cases, func(line []byte) error {
 		var c isoCase
